@@ -23,6 +23,7 @@ import (
 	"go/ast"
 	"go/parser"
 	"go/token"
+	"gtverif/internal/srcset"
 	"os"
 	"path/filepath"
 	"strings"
@@ -356,6 +357,86 @@ func translate(fd *ast.FuncDecl, generated bool) wiring {
 	return w
 }
 
+// checkFactoryUniverse: the methods of interface Factory must be exactly the 19 the model, the
+// harnesses and the template know, plus Error and Is.  A new Factory method has no wiring row, no
+// generated stanza and no place in the Coq type [method]: the tie says so instead of passing.
+func checkFactoryUniverse(files []*ast.File) {
+	known := map[string]bool{"Error": true, "Is": true}
+	for _, m := range methods {
+		known[m] = true
+	}
+	seen := false
+	for _, f := range files {
+		for _, d := range f.Decls {
+			gd, ok := d.(*ast.GenDecl)
+			if !ok || gd.Tok != token.TYPE {
+				continue
+			}
+			for _, s := range gd.Specs {
+				ts := s.(*ast.TypeSpec)
+				it, ok := ts.Type.(*ast.InterfaceType)
+				if ts.Name.Name != "Factory" || !ok {
+					continue
+				}
+				seen = true
+				have := map[string]bool{}
+				for _, m := range it.Methods.List {
+					if len(m.Names) == 0 {
+						fail("interface Factory embeds another interface: method universe unknown")
+					}
+					for _, n := range m.Names {
+						have[n.Name] = true
+						if !known[n.Name] {
+							fail("interface Factory has a method the model does not know: %s (no wiring row, no generated stanza is checked for it)", n.Name)
+						}
+					}
+				}
+				for _, m := range methods {
+					if !have[m] {
+						fail("interface Factory lacks the method %s", m)
+					}
+				}
+			}
+		}
+	}
+	if !seen {
+		fail("interface Factory not found in the package")
+	}
+}
+
+// checkMethodSet: in the files of a generated extension type *T only the 19 Factory methods,
+// Error and toPrimaryType may be declared on T.  Anything else (an Is, Unwrap or Err* override, a
+// wrapper) changes which code errors.Is and the accessors run: the gerror.Error method set of *T
+// must come from the embedded GError.
+func checkMethodSet(fset *token.FileSet, files []*ast.File, typ string) {
+	allowed := map[string]bool{"Error": true, "toPrimaryType": true}
+	for _, m := range methods {
+		allowed[m] = true
+	}
+	// methods of gerror.Error that a type embedding GError gets by promotion
+	promoted := map[string]bool{"Is": true, "Unwrap": true, "ErrMessage": true, "ErrSource": true, "ErrName": true,
+		"ErrDetailTag": true, "ErrStack": true, "_embededGError": true}
+	for _, f := range files {
+		for _, d := range f.Decls {
+			fd, ok := d.(*ast.FuncDecl)
+			if !ok || fd.Recv == nil || len(fd.Recv.List) != 1 {
+				continue
+			}
+			var t ast.Expr = fd.Recv.List[0].Type
+			if st, ok := t.(*ast.StarExpr); ok {
+				t = st.X
+			}
+			// in generated files ANY further method; in hand-written files of the type (the user's
+			// Convert/ConvertS with -skipConvertGen, harness helpers) only overrides of promoted methods
+			generatedFile := strings.HasSuffix(fset.Position(fd.Pos()).Filename, ".gerror.go")
+			if id, ok := t.(*ast.Ident); ok && id.Name == typ && !allowed[fd.Name.Name] && (generatedFile || promoted[fd.Name.Name]) {
+				fail("type %s declares the method %s: the generated code may only define the 19 Factory methods, Error and toPrimaryType "+
+					"(an override of a method promoted from GError changes errors.Is / the accessors)", typ, fd.Name.Name)
+			}
+		}
+	}
+}
+
 func recvType(fd *ast.FuncDecl) string {
 	if fd.Recv == nil || len(fd.Recv.List) != 1 {
 		return ""
@@ -391,28 +472,26 @@ func main() {
 	// -gen accepts a comma-separated list (the generated file and, with -skipConvertGen, the file
 	// holding the hand-written Convert/ConvertS)
 	var files []*ast.File
-	for _, p := range strings.Split(path, ",") {
-		f, err := parser.ParseFile(fset, p, nil, 0)
+	if !generated {
+		// -base: the methods of *GError wherever the build takes them from (all files of the package
+		// directory that match the build context), and the method universe from interface Factory
+		sp, err := srcset.Load(filepath.Dir(path), "verif")
 		if err != nil {
 			fail("%v", err)
 		}
-		files = append(files, f)
+		files = sp.Files
+		checkFactoryUniverse(files)
+	} else {
+		for _, p := range strings.Split(path, ",") {
+			f, err := parser.ParseFile(fset, p, nil, 0)
+			if err != nil {
+				fail("%v", err)
+			}
+			files = append(files, f)
+		}
+		checkMethodSet(fset, files, *typ)
 	}
 	constFiles := files
-	if !generated {
-		// constants may live in any non-test file of the package
-		if ents, err := os.ReadDir(filepath.Dir(path)); err == nil {
-			for _, e := range ents {
-				n := e.Name()
-				if e.IsDir() || !strings.HasSuffix(n, ".go") || strings.HasSuffix(n, "_test.go") || filepath.Join(filepath.Dir(path), n) == filepath.Clean(path) {
-					continue
-				}
-				if f, err := parser.ParseFile(token.NewFileSet(), filepath.Join(filepath.Dir(path), n), nil, 0); err == nil {
-					constFiles = append(constFiles, f)
-				}
-			}
-		}
-	}
 	strConsts = collectConsts(constFiles)
 	for _, f := range files {
 		for _, d := range f.Decls {
